@@ -669,6 +669,10 @@ class _QueueNew:
     def __init__(self):
         self.items = collections.deque()
 
+    @property
+    def queue(self):
+        return self.items
+
     def put(self, x):
         self.items.append(x)
 
